@@ -9,10 +9,8 @@
    the route is sprint s = print_string (embed s) for a stratified [embed s] with den (embed s) = pyden s
    (SymbolicProof.embed_correct), then C05.  That ConstantAxis / AnonymousAxis arithmetic is TypeError is checked by
    the harness (the model has no such operands: [sym] cannot express them). *)
-From DL Require Import Base Lexer Parser Eval Symbolic Grammar Denote ParseEval SymbolicProof.
+From DL Require Import Base Lexer Parser Eval Shape Symbolic Grammar Denote ParseEval SymbolicProof SymbolicShape.
 
-Lemma lvl_ge_1 s : 1 <= lvl s.
-Proof. unfold lvl. destruct (infix_prec s) as [p|] eqn:E; [|lia]. destruct s; try discriminate. injection E as <-. destruct o; simpl; lia. Qed.
 
 Theorem C18_symbolic : forall s, sym_ok s ->
   exists str d, sprint s = Ok str /\ expression_from_string str = Ok d /\
@@ -38,4 +36,19 @@ Example C18_hypotheses_satisfiable :
                    (SIsqrt (SBin SUB (SVar "b") (SFun2 MIN (SLit 2) (SLit 3))))).
 Proof. simpl. repeat split; auto; try lia. exists 2%Z. split; [reflexivity|lia]. Qed.
 
+(* Shape[...] as a whole: expression axes, ConstantAxis, AnonymousAxis(...) / Ellipsis, AnonymousAxis("name"), joined by
+   spaces.  For a non-empty sequence with at most one multi-axis marker whose axes are well formed, the printed string
+   is accepted by TensorTypeBase and every dimension of the annotation means what its axis means in Python; the
+   multi-axis index is the marker's position. *)
+Theorem C18_shape : forall l, l <> [] -> Forall axis_ok l -> amarkers l <= 1 ->
+  exists str ty, print_sshape l = Ok str /\ parse_shape str = Ok ty /\ Forall2 axis_means l (t_shape ty) /\
+                 (amarkers l = 0 -> t_mindex ty = None) /\
+                 (forall j a, nth_error l j = Some a -> amarker a = true -> t_mindex ty = Some j).
+Proof. exact shape_print_parse. Qed.
+Example C18_shape_example :
+  print_sshape [SAStar "batch"; SAConst "rgb" 3; SAExpr (SBin MUL (SVar "h") (SBin DIV (SVar "w") (SLit 2))); SAExpr (SLit 4)] = Ok "*batch rgb=3 h*(w/2) 4" /\
+  Forall axis_ok [SAStar "batch"; SAConst "rgb" 3; SAExpr (SBin MUL (SVar "h") (SBin DIV (SVar "w") (SLit 2))); SAExpr (SLit 4)].
+Proof. split; [reflexivity|]. repeat constructor; simpl; auto; lia. Qed.
+
 Redirect "C18.assumptions.1" Print Assumptions C18_symbolic.
+Redirect "C18.assumptions.2" Print Assumptions C18_shape.
